@@ -79,7 +79,7 @@ class BlockingExecutor(Executor):
             return self.complete_value(
                 field_definition.type, nodes, path, info, resolved
             )
-        except ResolverError as err:
+        except (CoercionError, ResolverError) as err:
             # Raised while the value is consumed (e.g. by a generator, a type
             # resolver or a custom scalar): a failure of this field.
             self.add_error(err, path, node)
